@@ -34,6 +34,11 @@ R4 results propagate: `DependencyResolver.eval` walks the tree with the listener
    library list of the `jshead(..)` call that builds the scanned `jslib` is computed from a parameter (the caller's
    expressionLib: inputs read inside library functions are dependencies of the expression that calls them).
 
+Guards (R1a narrowing, R1b None-tests, R3b caller tests, R4 receiver / alias tests) are read as *path facts* (`_facts`):
+enclosing `if` / conditional-expression tests, preceding `and` operands and preceding guard clauses
+(`if c: return|raise|continue|break`), decomposed through and / or (De Morgan) / not / `not in`; so `if a: if b: X`,
+`if a and b: X` and `if not a: return ... X` give the same facts, while `if a or b: X` gives none about `a`.
+
 Left out of DESIGN's R2 table: *function expression parameters*.  Without a handler a function expression
 neither pushes a scope nor shadows, so names are only ever over-approximated (a superset keeps the clause);
 arming it would fire on behaviour that satisfies the property.  It is printed as an observation.
@@ -158,6 +163,87 @@ def _accessor_type(p, meth, nargs: int):
     return kinds[0]
 
 
+# --------------------------------------------------------------------------- path facts
+
+_FLIP = {ast.NotIn: ast.In, ast.IsNot: ast.Is, ast.NotEq: ast.Eq}
+
+
+def _split_fact(t, pol: bool, out: list) -> None:
+    """Decompose `t is pol` into atomic facts: `a and b` true => a true, b true; `a or b` false => a false, b false
+    (De Morgan); `not a` flips; `x not in y` / `x is not y` / `x != y` become the positive comparison with the
+    polarity flipped.  A disjunction that holds (or a conjunction that fails) says nothing about its operands
+    and stays one atom."""
+    if isinstance(t, ast.UnaryOp) and isinstance(t.op, ast.Not):
+        _split_fact(t.operand, not pol, out)
+    elif isinstance(t, ast.BoolOp) and isinstance(t.op, ast.And if pol else ast.Or):
+        for v in t.values:
+            _split_fact(v, pol, out)
+    elif isinstance(t, ast.Compare) and len(t.ops) == 1 and type(t.ops[0]) in _FLIP:
+        # synthesised node sharing the operand sub-trees (their parent pointers stay those of the source)
+        out.append((ast.Compare(left=t.left, ops=[_FLIP[type(t.ops[0])]()], comparators=t.comparators), not pol))
+    else:
+        out.append((t, pol))
+
+
+def _leaves(stmts) -> bool:
+    """The statement list cannot complete normally (ends in return / raise / continue / break on every branch)."""
+    if not stmts:
+        return False
+    last = stmts[-1]
+    if isinstance(last, (ast.Return, ast.Raise, ast.Continue, ast.Break)):
+        return True
+    if isinstance(last, ast.If):
+        return _leaves(last.body) and _leaves(last.orelse)
+    return False
+
+
+def _facts(node, f) -> list:
+    """[(atom, polarity)] known to hold when `node` (inside function `f`) is evaluated: the conditions of the enclosing
+    `if` statements / conditional expressions / preceding `and` operands (guards_of), plus the guard clauses
+    `if c: return|raise|continue|break` that precede an enclosing statement in its block, each decomposed by
+    _split_fact.  The same fact is obtained from `if a: if b: X`, `if a and b: X`, `if not a: return; if b: X`
+    and `if not a or not b: return; X`.  Like guards_of this is lexical: a re-binding of a tested name between the
+    test and `node` is not tracked."""
+    raw = [(t, pol) for t, pol, _ in guards_of(node, stop=f.node)]
+    child, p = node, parent(node)
+    while p is not None:
+        for fld in ("body", "orelse", "finalbody", "handlers"):
+            blk = getattr(p, fld, None)
+            if isinstance(blk, list) and any(child is s for s in blk):
+                for s in blk:
+                    if s is child:
+                        break
+                    if isinstance(s, ast.If):
+                        if _leaves(s.body) and not _leaves(s.orelse):
+                            raw.append((s.test, False))
+                        elif s.orelse and _leaves(s.orelse) and not _leaves(s.body):
+                            raw.append((s.test, True))
+        if p is f.node or isinstance(p, (ast.FunctionDef, ast.AsyncFunctionDef, ast.Lambda, ast.ClassDef)):
+            break
+        child, p = p, parent(p)
+    out: list = []
+    for t, pol in raw:
+        _split_fact(t, pol, out)
+    return out
+
+
+def _mentions(t, name: str) -> bool:
+    return any(isinstance(x, ast.Name) and x.id == name for x in [t, *ast.walk(t)])
+
+
+def _non_null_fact(t, pol: bool, name: str) -> bool:
+    """The fact (t, pol) implies that local `name` is not None."""
+    if isinstance(t, ast.Compare) and len(t.ops) == 1 and isinstance(t.ops[0], (ast.Is, ast.Eq)) and isinstance(t.left, ast.Name) \
+            and t.left.id == name and isinstance(t.comparators[0], ast.Constant) and t.comparators[0].value is None:
+        return not pol
+    if isinstance(t, ast.Name) or (isinstance(t, ast.NamedExpr) and isinstance(t.target, ast.Name)):
+        nm = t.id if isinstance(t, ast.Name) else t.target.id
+        if nm == name:
+            return pol
+    # any other test that holds and reads the value (membership, isinstance, comparison with a string, ...)
+    return pol and _mentions(t, name)
+
+
 # --------------------------------------------------------------------------- type inference in the listener
 
 
@@ -168,19 +254,18 @@ def _infer(p, f, expr, at=None, depth=0):
     if isinstance(expr, ast.Name):
         # isinstance narrowing at the use site
         if at is not None:
-            for test, pol, _ in guards_of(at, stop=f.node):
-                for n in [test, *ast.walk(test)]:
-                    if (
-                        pol
-                        and isinstance(n, ast.Call)
-                        and dotted(n.func) == "isinstance"
-                        and len(n.args) == 2
-                        and isinstance(n.args[0], ast.Name)
-                        and n.args[0].id == expr.id
-                    ):
-                        q = _pcls(p, dotted(n.args[1]) or "")
-                        if q:
-                            return ("ctx", q)
+            for n, pol in _facts(at, f):
+                if (
+                    pol
+                    and isinstance(n, ast.Call)
+                    and dotted(n.func) == "isinstance"
+                    and len(n.args) == 2
+                    and isinstance(n.args[0], ast.Name)
+                    and n.args[0].id == expr.id
+                ):
+                    q = _pcls(p, dotted(n.args[1]) or "")
+                    if q:
+                        return ("ctx", q)
         ann = f.param_annotation(expr.id)
         if ann is not None:
             d = dotted(ann) or ""
@@ -314,10 +399,7 @@ def r1(ctx):
                 if tgt:
                     for n in f.body_nodes():
                         if isinstance(n, (ast.Attribute, ast.Subscript)) and isinstance(n.value, ast.Name) and n.value.id == tgt and isinstance(n.ctx, ast.Load):
-                            guarded = any(
-                                pol and any(isinstance(x, ast.Name) and x.id == tgt for x in [t, *ast.walk(t)])
-                                for t, pol, _ in guards_of(n, stop=f.node)
-                            )
+                            guarded = any(_non_null_fact(t, pol, tgt) for t, pol in _facts(n, f))
                             if not guarded:
                                 bad = unparse(n)[:80]
             ctx.ob(
@@ -548,7 +630,7 @@ def r3(ctx):
     for f in _listener_funcs(p):
         for c in _calls_on_names(f, "delete_name"):
             arg = c.args[0] if c.args else None
-            for t, pol, _ in guards_of(c, stop=f.node):
+            for t, pol in _facts(c, f):
                 if pol and isinstance(t, ast.Compare) and isinstance(t.ops[0], ast.In) and unparse(t.comparators[0]) == "self.names" and arg is not None and unparse(t.left) == unparse(arg):
                     callers_guard_any_scope.append(c)
     ctx.ob(
@@ -619,7 +701,7 @@ def r4(ctx):
             arg_acc = _accessors_in(h, a.args[0]) if a.args else set()
             guard_acc = set()
             tracked = False
-            for t, pol, _ in guards_of(a, stop=h.node):
+            for t, pol in _facts(a, h):
                 if pol:
                     acc = _accessors_in(h, t)
                     if any(isinstance(c.func, ast.Attribute) and c.func.attr in ("global_names",) for c in calls_deep(h, t)) or "self.names" in unparse(t):
@@ -639,7 +721,7 @@ def r4(ctx):
             if not isinstance(arg, ast.Name):
                 continue
             lsrc = {unparse(c.args[0]) for c in calls_deep(h, arg) if isinstance(c.func, ast.Attribute) and c.func.attr == "getChild" and c.args}
-            for t, pol, _ in guards_of(a, stop=h.node):
+            for t, pol in _facts(a, h):
                 if pol and isinstance(t, ast.Compare) and len(t.ops) == 1 and isinstance(t.ops[0], ast.In) and unparse(t.comparators[0]) == "self.names":
                     rsrc = {unparse(c.args[0]) for c in calls_deep(h, t.left) if isinstance(c.func, ast.Attribute) and c.func.attr == "getChild" and c.args}
                     if lsrc == {"0"} and rsrc == {"2"}:
@@ -767,6 +849,19 @@ VARIANTS = [
       "engine = DependencyResolver(context_key)\n        libs = []\n        cwl_utils.expression.interpolate(expression, context, jslib=cwl_utils.expression.jshead(libs, context) if full_js else ''", "R4"),
     V("strip_whitespace no longer forwarded", CUFILE, f"{CWLUTILS}.resolve_dependencies", "strip_whitespace=strip_whitespace", "strip_whitespace=True", "R4"),
     V("context_key no longer forwarded", CUFILE, f"{CWLUTILS}.resolve_dependencies", "engine = DependencyResolver(context_key)", "engine = DependencyResolver('inputs')", "R4"),
+    # merged / guard-clause shapes of the member and alias tests (benign corpus B5-6): the facts must still be the right ones
+    V("merged dot test joined with `or`", FILE, f"{LISTENER}.enterMemberDotExpression", "if self._get_name(ctx.singleExpression()) in self.names.global_names():\n        if (dep := self._get_name(ctx.identifierName())):\n            self.deps.add(dep)",
+      "if self._get_name(ctx.singleExpression()) in self.names.global_names() or (dep := self._get_name(ctx.identifierName())):\n        self.deps.add(dep)", "R4"),
+    V("merged dot test reads the member on both conjuncts", FILE, f"{LISTENER}.enterMemberDotExpression", "if self._get_name(ctx.singleExpression()) in self.names.global_names():\n        if (dep := self._get_name(ctx.identifierName())):\n            self.deps.add(dep)",
+      "if self._get_name(ctx.identifierName()) in self.names.global_names() and (dep := self._get_name(ctx.identifierName())):\n        self.deps.add(dep)", "R4"),
+    V("guard clause with the wrong polarity", FILE, f"{LISTENER}.enterMemberDotExpression", "if self._get_name(ctx.singleExpression()) in self.names.global_names():\n        if (dep := self._get_name(ctx.identifierName())):\n            self.deps.add(dep)",
+      "if self._get_name(ctx.singleExpression()) in self.names.global_names():\n        return\n    if (dep := self._get_name(ctx.identifierName())):\n        self.deps.add(dep)", "R4"),
+    V("merged alias test joined with `or`", FILE, f"{LISTENER}.enterAssignmentExpression", "elif isinstance(right, ECMAScriptParser.SingleExpressionContext):\n                right_name = self._get_name(right)\n                if right_name in self.names:\n                    self.names.add_name(left_name)",
+      "elif isinstance(right, ECMAScriptParser.SingleExpressionContext) or self._get_name(right) in self.names:\n                self.names.add_name(left_name)", "R4"),
+    V("merged alias test reads the left operand", FILE, f"{LISTENER}.enterAssignmentExpression", "elif isinstance(right, ECMAScriptParser.SingleExpressionContext):\n                right_name = self._get_name(right)\n                if right_name in self.names:\n                    self.names.add_name(left_name)",
+      "elif isinstance(right, ECMAScriptParser.SingleExpressionContext) and self._get_name(left) in self.names:\n                self.names.add_name(left_name)", "R4"),
+    V("Optional result dereferenced under the negated test", FILE, f"{LISTENER}.enterAssignmentExpression", "if left_name:\n            if left_name in self.names:",
+      "if not left_name:\n            if left_name.strip() in self.names:", "R1"),
     # ---- benign
     V("benign: parameter list fetched before the scope push", FILE, f"{LISTENER}.enterFunctionDeclaration",
       "self.names.add_scope()\n    parameters = ctx.formalParameterList()", "parameters = ctx.formalParameterList()\n    self.names.add_scope()", None),
@@ -790,6 +885,17 @@ VARIANTS = [
       "receiver = self._get_name(ctx.singleExpression())\n    if receiver in self.names.global_names():", None),
     V("benign: merge with update()", FILE, f"{RESOLVER}.eval", "self.deps |= listener.deps", "self.deps.update(listener.deps)", None),
     V("benign: rename left/right", FILE, f"{LISTENER}.enterAssignmentExpression", "right_name", "rhs_name", None, count=5),
+    # B5-6: nested ifs merged into one `and` condition; the same tests as guard clauses / De Morgan
+    V("benign: dot handler tests merged with `and` (B5-6)", FILE, f"{LISTENER}.enterMemberDotExpression", "if self._get_name(ctx.singleExpression()) in self.names.global_names():\n        if (dep := self._get_name(ctx.identifierName())):\n            self.deps.add(dep)",
+      "if self._get_name(ctx.singleExpression()) in self.names.global_names() and (dep := self._get_name(ctx.identifierName())):\n        self.deps.add(dep)", None),
+    V("benign: alias branch tests merged with `and` (B5-6)", FILE, f"{LISTENER}.enterAssignmentExpression", "elif isinstance(right, ECMAScriptParser.SingleExpressionContext):\n                right_name = self._get_name(right)\n                if right_name in self.names:\n                    self.names.add_name(left_name)",
+      "elif isinstance(right, ECMAScriptParser.SingleExpressionContext) and self._get_name(right) in self.names:\n                self.names.add_name(left_name)", None),
+    V("benign: dot handler with guard clauses", FILE, f"{LISTENER}.enterMemberDotExpression", "if self._get_name(ctx.singleExpression()) in self.names.global_names():\n        if (dep := self._get_name(ctx.identifierName())):\n            self.deps.add(dep)",
+      "if self._get_name(ctx.singleExpression()) not in self.names.global_names():\n        return\n    dep = self._get_name(ctx.identifierName())\n    if not dep:\n        return\n    self.deps.add(dep)", None),
+    V("benign: dot handler with one De Morgan guard clause", FILE, f"{LISTENER}.enterMemberDotExpression", "if self._get_name(ctx.singleExpression()) in self.names.global_names():\n        if (dep := self._get_name(ctx.identifierName())):\n            self.deps.add(dep)",
+      "dep = self._get_name(ctx.identifierName())\n    if not dep or self._get_name(ctx.singleExpression()) not in self.names.global_names():\n        return\n    self.deps.add(dep)", None),
+    V("benign: outer tests of the assignment handler merged, name test as guard clause", FILE, f"{LISTENER}.enterAssignmentExpression",
+      "if left_name:\n            if left_name in self.names:", "if not left_name:\n            return\n        if True:\n            if left_name.strip() in self.names:", None),
     V("benign: debug logging in the dot handler", FILE, f"{LISTENER}.enterMemberDotExpression", "if (dep := self._get_name(ctx.identifierName())):",
       "print('member access')\n        if (dep := self._get_name(ctx.identifierName())):", None),
 ]
